@@ -82,3 +82,12 @@ claim('C13',
       'defined in the evidence; state outside it (astropy caches) is outside the claim.',
       'symbolic frame-condition checking (z3 term identity per path) + executed frame conditions and pairwise order differential',
       'DESIGN.md section 5 C13')
+claim('C05',
+      'Bounded symbolic check of RegionMask.to_image / cutout / multiply / get_values: the box position is an unbounded '
+      'symbolic integer pair (the solver enumerates every overlapping placement, all non-overlapping placements are one '
+      'symbolic path), pixel values / weights / fill value are symbolic reals; every output cell is compared with the '
+      'placement definition, None / empty exactly when no pixel is shared, view-vs-copy semantics, inputs unmodified.  '
+      'dtype / fill interactions (int, float, Quantity x 0, finite, nan, inf) executed over 56 box positions.',
+      'Small shapes (image <= 2x3 quick / 3x3 thorough, mask <= 2x2 / 3x3); reals model; numpy dtype promotion only in the executed table.',
+      'symbolic execution of the real Python + SMT (z3 LIRA) with solver-enumerated integer placements',
+      'DESIGN.md section 5 C05')
